@@ -40,6 +40,9 @@ Proof.
   rewrite forallb_forall in H. now apply H.
 Qed.
 
+Theorem digits_leaf_proof : forall s, s <> [] -> forallb is_digit s = true -> leaf_ok s = true.
+Proof. intros s H1 H2. apply atom_str_leaf; [exact H1|now apply digits_atom_str]. Qed.
+
 (* ---- str(n) ---- *)
 Lemma to_dec_aux_digits fuel : forall n acc,
   forallb is_digit acc = true -> forallb is_digit (to_dec_aux fuel n acc) = true.
